@@ -89,10 +89,11 @@ def createCV (inp : Input) (v : Nat) : CVal :=
     | none => inp.height
   { v := v, key := key, power := lastPower inp.stk v, join := join }
 
-/-- the candidate list: bonded validators sorted by tokens (descending, stable), truncated to M
-    unless inactive validators are allowed -/
+/-- the candidate list: bonded validators sorted by voting power (descending, STABLE: equal powers
+    keep the staking order, which defines the provider's active set), truncated to M unless
+    inactive validators are allowed -/
 def candidates (inp : Input) : List Nat :=
-  let sorted := isort (fun a b => decide (bondedTokens inp.stk a ≥ bondedTokens inp.stk b)) inp.bonded
+  let sorted := isort (fun a b => decide (lastPower inp.stk a ≥ lastPower inp.stk b)) inp.bonded
   if inp.ps.inactive then sorted else sorted.take inp.m
 
 /-- eligible validators, before ranking and capping -/
